@@ -451,7 +451,8 @@ def C13():
     from contracts.validators_doc import BodyKeysValidator
     from contracts import replayers as R
     return Property(
-        "C13", units=[ContractUnit(u) for u in UNITS] + [ContractUnit(ApplyDataPostProcessing(), variants=["group_by"]), ContractUnit(BodyKeysValidator())] + LEMMAS, level="proof",
+        "C13", units=[ContractUnit(u) for u in UNITS] + [ContractUnit(ApplyDataPostProcessing(), variants=["group_by"]), ContractUnit(BodyKeysValidator()),
+                      _prepare_unit()] + LEMMAS, level="proof",
         technique="Kleene-semantics model of the polars expression fragment; whole-frame postconditions on the real _suppress_single_column / "
                   "_suppress_hierarchical_columns (2 and 3 levels) / restore_page_context (loop invariant over page starts) / validate_data_sorting "
                   "(seen-set invariant, exceptional postcondition) + contiguity lemma; enhance_group_by (the dispatcher): order validated for exactly these "
@@ -462,7 +463,7 @@ def C13():
         assumptions=["the deeper levels of validate_data_sorting (composite string key; injectivity precondition) are not yet under contract in this check; "
                      "the page start indices handed to restore_page_context are proved to be the first rows of pages 2..P (unit ApplyDataPostProcessing)"],
         replayers={"services/grouping_service.py::": R.replay_grouping, "encoding/unified_encoder.py::": R.replay_group_by_pipeline,
-                   "input.py::": R.replay_group_by_pipeline}, design_ref="4/C13, A18")
+                   "input.py::": R.replay_group_by_pipeline, "services/encoding_service.py::": R.replay_group_by_pipeline}, design_ref="4/C13, A18")
 
 
 def C20():
